@@ -162,6 +162,26 @@ def run(ctx, model_ok):
                    for t, p, nm in threads]
         for cfg in ({'color': False}, {'color': False, 'show_tid': True}):
             lreqs.append({'file': sg.v2(threads, evs).hex(), 'cfg': cfg, 'calls': ['formatted_traces', 'formatted_kevents', 'formatted_callstacks']})
+    # the host's local time zone: a time base without a zone prints the raw counter, with a zone the zone's wall clock -
+    # never the host's local time
+    treqs = []
+    for rq in lreqs[:6]:
+        for tzm in (None, 0, 120, -300):
+            treqs.append({'file': rq['file'], 'cfg': dict(rq['cfg'], mach_absolute_time=0, numer=125, denom=3,
+                                                         usecs_since_epoch=1600000000000000, timezone_minutes=tzm),
+                          'calls': ['formatted_kevents', 'formatted_traces']})
+    tz = [vlib.run_impl('run_api.py', {'cases': treqs}, env_extra={'TZ': z})['results'] for z in ('UTC0', 'JST-9', 'PST8PDT')]
+    ctx.evaluations += 3 * len(treqs)
+    for rq, a, b, c in zip(treqs, *tz):
+        ctx.count('time-zone')
+        for ca, cb, cc2 in zip(a, b, c):
+            if not (ca['items'] == cb['items'] == cc2['items']):
+                j = next((k for k in range(len(ca['items'])) if not (ca['items'][k] == cb['items'][k] == cc2['items'][k])), 0)
+                ctx.failing.append({'input': {'kind': 'time-zone', 'file': rq['file'], 'cfg': rq['cfg'], 'call': ca['call']},
+                                    'expected': {'TZ=UTC0': ca['items'][j:j + 1]},
+                                    'actual': {'TZ=JST-9': cb['items'][j:j + 1], 'TZ=PST8PDT': cc2['items'][j:j + 1]},
+                                    'why': 'the formatted lines change with the local time zone of the host'})
+                break
     stubs = os.path.join(os.path.dirname(os.path.dirname(os.path.abspath(__file__))), 'harness', 'stubs')
     la = vlib.run_impl('run_api.py', {'cases': lreqs})['results']
     lb = vlib.run_impl('run_api.py', {'cases': lreqs}, env_extra={'PYTHONPATH': '/repo:' + stubs})['results']
